@@ -8,17 +8,17 @@ import (
 
 // substTable maps library functions to Go-coded models in package verifrt/models.
 var substTable = map[string]string{
-	"fmt.Errorf":  "Errorf",
-	"fmt.Sprintf": "Sprintf",
-	"context.WithValue": "WithValue",
-	"context.WithCancel": "WithCancel",
-	"time.AfterFunc":     "AfterFunc",
-	"encoding/json.MarshalIndent": "JSONMarshalIndent",
-	"(net/http.Header).Set": "HeaderSet",
-	"(net/http.Header).Add": "HeaderAdd",
-	"(net/http.Header).Get": "HeaderGet",
-	"(*time.Timer).Stop": "TimerStop",
-	"errors.Is":         "ErrorsIs",
+	"fmt.Errorf":                                  "Errorf",
+	"fmt.Sprintf":                                 "Sprintf",
+	"context.WithValue":                           "WithValue",
+	"context.WithCancel":                          "WithCancel",
+	"time.AfterFunc":                              "AfterFunc",
+	"encoding/json.MarshalIndent":                 "JSONMarshalIndent",
+	"(net/http.Header).Set":                       "HeaderSet",
+	"(net/http.Header).Add":                       "HeaderAdd",
+	"(net/http.Header).Get":                       "HeaderGet",
+	"(*time.Timer).Stop":                          "TimerStop",
+	"errors.Is":                                   "ErrorsIs",
 	"storj.io/drpc/drpcmanager.isConnectionReset": "NotConnReset",
 	"storj.io/drpc/drpcserver.isTemporary":        "NotTemporary",
 }
